@@ -6,6 +6,8 @@
 //!    boundary family, and - as deviation choices on top of four base encodings - every alternative
 //!    flag/coordinate encoding of the same points (int16 instead of short/same, short +0 / -0, repeat flags
 //!    in three styles incl. runs spanning two contours, instructions, OVERLAP_SIMPLE, loca format / padding);
+//!    a long-run family (127..600 points sharing one flag byte, runs capped at 256/255/129/128/2) so that every
+//!    repeat count byte class 0, 1, 127, 128, 254, 255 occurs;
 //!  * composite glyphs: 1..=3 components over transform x argument x offset-flag menus, chains of nested
 //!    composites up to depth 9 (12), composites of composites with offsets and point-number arguments at both
 //!    levels, and cyclic references.
@@ -431,6 +433,16 @@ fn simple_case(ctx: &Ctx, col: &Collector, st: &SimpleStats, fam: u32, contours:
     ge::deltas_into(&mut s.deltas, contours);
     let is_base = choose_enc(c, &s.deltas, &mut s.senc);
     let lay = c.dev(3);
+    let npts: u32 = contours.iter().map(|x| x.len() as u32).sum();
+    let first = c.deviations() == 0 && is_base;
+    // the font seam runs for the base encoding with the long and the short loca format
+    let do_font = is_base && (c.deviations() == 0 || (c.deviations() == 1 && lay == 1));
+    simple_eval(ctx, col, st, contours, s, lay, first, do_font, &|| order_key(fam, npts, c));
+}
+
+/// encode `contours` with the encoding in `s.senc` under table layout `lay`, run the seams, compare
+#[allow(clippy::too_many_arguments)]
+fn simple_eval(ctx: &Ctx, col: &Collector, st: &SimpleStats, contours: &[Contour], s: &mut Scratch, lay: usize, first: bool, do_font: bool, order: &dyn Fn() -> Vec<u32>) {
     let (long, align) = layout(lay);
     ge::encode_simple_into(&mut s.gbytes, contours, &s.senc, &mut s.enc);
     if !ge::simple_decodes_to(&s.gbytes, contours, &mut s.enc) {
@@ -448,9 +460,6 @@ fn simple_case(ctx: &Ctx, col: &Collector, st: &SimpleStats, fam: u32, contours:
         ge::glyph_commands_into(&mut s.shape_cmds, &ge::simple_as_flat(contours));
         ge::paths_into(&mut s.shape_paths, &s.shape_cmds).expect("reference commands are well formed");
     }
-    let npts: u32 = contours.iter().map(|x| x.len() as u32).sum();
-    let first = c.deviations() == 0 && is_base;
-
     let one_seam = |seam: &str, obs: Obs, font: Option<&[u8]>, s: &mut Scratch| {
         if first && seam == "glyf" {
             if let Obs::Ok(cmds) = &obs {
@@ -467,7 +476,7 @@ fn simple_case(ctx: &Ctx, col: &Collector, st: &SimpleStats, fam: u32, contours:
             Outcome::Malformed(_) => "C16:simple:command-stream-not-closed-sub-paths".to_string(),
             Outcome::Mismatch => format!("C16:simple:mismatch:{}", seam),
         };
-        col.report(&key, order_key(fam, npts, c), || {
+        col.report(&key, order(), || {
             let mut w = json!({"family": "simple", "seam": seam, "contours": jcontours(contours), "encoding": format!("{:?}", s.senc),
                 "expected_any": [jcmds(&s.shape_cmds)], "accept_limit_error": false});
             w = merge(w, table_witness(&s.glyf, &s.loca, 3, long, 2));
@@ -479,8 +488,7 @@ fn simple_case(ctx: &Ctx, col: &Collector, st: &SimpleStats, fam: u32, contours:
     };
     let obs = observe_tables(&s.glyf, &s.loca, 3, long, 2);
     one_seam("glyf", obs, None, s);
-    // the font seam runs for the base encoding with the long and the short loca format
-    if is_base && (c.deviations() == 0 || (c.deviations() == 1 && lay == 1)) {
+    if do_font {
         let font = wrap_font(&s.glyf, &s.loca, 3, long);
         let obs = observe_font(&font, 2);
         one_seam("font", obs, Some(&font), s);
@@ -490,7 +498,7 @@ fn simple_case(ctx: &Ctx, col: &Collector, st: &SimpleStats, fam: u32, contours:
         // the filler glyph next to the glyph under test must be unaffected
         let obs = observe_tables(&s.glyf, &s.loca, 3, long, 1);
         if !matches!(compare(&obs, std::slice::from_ref(&fill.2), false, &mut s.obs), Outcome::Pass) {
-            col.report("C16:simple:neighbour-glyph-mismatch", order_key(fam, npts, c), || {
+            col.report("C16:simple:neighbour-glyph-mismatch", order(), || {
                 let w = json!({"family": "simple", "seam": "glyf", "contours": jcontours(&filler()), "neighbour_contours": jcontours(contours),
                     "expected_any": [jcmds(&fill.1)], "accept_limit_error": false});
                 merge(merge(w, table_witness(&s.glyf, &s.loca, 3, long, 1)), show_obs(&obs))
@@ -501,11 +509,113 @@ fn simple_case(ctx: &Ctx, col: &Collector, st: &SimpleStats, fam: u32, contours:
         if has_off || contours.len() > 1 {
             ctx.mark_nontrivial(h);
         }
-        col.sample(h, || json!({"family": "simple", "contours": jcontours(contours), "expected": jcmds(&s.shape_cmds), "glyf_hex": mcx::hex(&s.glyf)}));
+        if contours.iter().map(|c| c.len()).sum::<usize>() <= 16 {
+            col.sample(h, || json!({"family": "simple", "contours": jcontours(contours), "expected": jcmds(&s.shape_cmds), "glyf_hex": mcx::hex(&s.glyf)}));
+        }
     }
     if s.senc.repeat != RepeatMode::None && ge::repeat_run_spans_contours(contours, &s.gbytes) {
         st.spanning_runs.fetch_add(1, Relaxed);
     }
+}
+
+/// Long flag runs: N points that share one flag byte (constant steps), optionally after one point with a
+/// different flag, as one contour or split into two, under every repeat style - so that the repeat count byte
+/// takes every value class (0, 1, 127, 128, 254, 255), runs are cut at 256, span the contour boundary and end
+/// exactly at the last point.
+fn run_long_runs(ctx: &Ctx, col: &Collector, st: &SimpleStats) -> Value {
+    use rayon::prelude::*;
+    const NS: [usize; 12] = [127, 128, 129, 255, 256, 257, 258, 300, 511, 512, 513, 600];
+    const VARIANTS: [&str; 5] = ["on-curve short +dx +dy", "on-curve all int16", "all off-curve short +dx +dy", "on-curve short +dx, same y", "on-curve short -dx -dy"];
+    let modes = [RepeatMode::None, RepeatMode::Capped(256), RepeatMode::Capped(255), RepeatMode::Capped(129), RepeatMode::Capped(128), RepeatMode::Capped(2), RepeatMode::ZeroCountAll];
+    // (n, variant, lead point, split position)
+    let mut cases: Vec<(usize, usize, bool, Option<usize>)> = Vec::new();
+    for &n in &NS {
+        for v in 0..VARIANTS.len() {
+            for lead in [false, true] {
+                let total = n + lead as usize;
+                let mut splits: Vec<usize> = [1, total / 2, total - 1, 255, 256, 257].iter().copied().filter(|k| *k >= 1 && *k < total).collect();
+                splits.sort();
+                splits.dedup();
+                cases.push((n, v, lead, None));
+                cases.extend(splits.into_iter().map(|k| (n, v, lead, Some(k))));
+            }
+        }
+    }
+    let count_bytes: Mutex<std::collections::BTreeSet<u8>> = Mutex::new(Default::default());
+    let (spanning, ending, executions) = (AtomicU64::new(0), AtomicU64::new(0), AtomicU64::new(0));
+    cases.par_iter().for_each(|&(n, v, lead, split)| {
+        let (dx, dy, on): (i16, i16, bool) = match v {
+            2 => (3, 2, false),
+            3 => (3, 0, true),
+            4 => (-3, -2, true),
+            _ => (3, 2, true),
+        };
+        let mut pts: Contour = Vec::with_capacity(n + 1);
+        if lead {
+            pts.push(pt(0, 0, !on)); // delta (0,0) and the other on/off state: a different flag byte
+        }
+        for i in 1..=n as i16 {
+            pts.push(pt(dx * i, dy * i, on));
+        }
+        let contours: Vec<Contour> = match split {
+            None => vec![pts],
+            Some(k) => vec![pts[..k].to_vec(), pts[k..].to_vec()],
+        };
+        let total = (n + lead as usize) as u32;
+        with_scratch(|s| {
+            for (mi, mode) in modes.iter().enumerate() {
+                let layouts: &[usize] = if *mode == RepeatMode::Capped(256) { &[0, 1, 2] } else { &[0] };
+                for &lay in layouts {
+                    s.senc.x.clear();
+                    s.senc.y.clear();
+                    if v == 1 {
+                        s.senc.x.resize(total as usize, ge::CoordEnc::Long);
+                        s.senc.y.resize(total as usize, ge::CoordEnc::Long);
+                    }
+                    s.senc.repeat = *mode;
+                    s.senc.instructions = 0;
+                    s.senc.overlap_simple = false;
+                    let first = mi == 0 && lay == 0;
+                    let do_font = *mode == RepeatMode::Capped(256) && lay < 2;
+                    let order = || vec![5, total, mi as u32, v as u32, lead as u32, split.map_or(0, |k| k as u32), lay as u32];
+                    simple_eval(ctx, col, st, &contours, s, lay, first, do_font, &order);
+                    executions.fetch_add(1, Relaxed);
+                    if lay == 0 {
+                        let runs = ge::repeat_runs(&contours, &s.gbytes);
+                        let mut set = count_bytes.lock().unwrap();
+                        for &(start, len, b) in &runs {
+                            set.insert(b);
+                            if let Some(k) = split {
+                                if len > 1 && start < k && k < start + len {
+                                    spanning.fetch_add(1, Relaxed);
+                                }
+                            }
+                            if len > 1 && start + len == total as usize {
+                                ending.fetch_add(1, Relaxed);
+                            }
+                        }
+                    }
+                }
+            }
+        });
+    });
+    let ex = executions.load(Relaxed);
+    ctx.evals(ex);
+    ctx.add_states(ex + cases.len() as u64 + 1);
+    ctx.add_transitions(ex + cases.len() as u64);
+    let bytes: Vec<u8> = count_bytes.into_inner().unwrap().into_iter().collect();
+    for class in [0u8, 1, 127, 128, 254, 255] {
+        assert!(bytes.contains(&class), "machinery: long-run family never wrote repeat count byte {}", class);
+    }
+    json!({
+        "run_lengths": NS, "variants": VARIANTS, "lead_point_with_other_flag": [false, true],
+        "split_into_two_contours_at": "none | 1 | half | last | 255 | 256 | 257",
+        "repeat_styles": "none | runs capped at 256, 255, 129, 128, 2 | every flag with count 0",
+        "shapes": cases.len(), "executions": ex,
+        "repeat_count_bytes_written": bytes,
+        "runs_spanning_the_contour_boundary": spanning.load(Relaxed),
+        "runs_ending_exactly_at_the_last_point": ending.load(Relaxed),
+    })
 }
 
 /// `menu_big` is used for contours of up to `big_upto` points, `menu_small` for longer ones
@@ -596,7 +706,9 @@ fn run_simple(ctx: &Ctx, col: &Collector) -> Value {
             ctx.add_transitions(1);
         }
     }
+    let long_runs = run_long_runs(ctx, col, &st);
     json!({
+        "long_flag_runs": long_runs,
         "one_contour": {"max_points": n1, "coordinate_menu": &MENU[..m1], "coordinate_menu_for_contours_longer_than": [big_upto, &MENU[..m1s]], "on_off_patterns": "all", "encoding_deviations": bound},
         "two_contours": {"max_points": [n2a, n2b], "coordinate_menu": &MENU[..m2], "on_off_patterns": "all", "encoding_deviations": 1},
         "delta_boundaries": BOUNDARY,
